@@ -473,12 +473,17 @@ pub fn attachments(src: &str) -> Vec<Option<String>> {
                 let starts_line = t[..t.len() - rest.len() + p].trim().is_empty();
                 let mut text: Vec<String> = Vec::new();
                 if starts_line {
+                    // the block is every `--|` line directly above; its first line may follow code on the same line
+                    // (adjacent text lines merge into one block whatever precedes the first of them)
                     let mut j = i;
-                    while j > 0 && lines[j - 1].trim_start().starts_with("--|") {
+                    while j > 0 {
+                        let prev = lines[j - 1];
+                        let Some(q) = prev.find("--|") else { break };
                         j -= 1;
-                    }
-                    for k in j..i {
-                        text.push(lines[k].trim_start().trim_start_matches("--|").trim().to_string());
+                        text.insert(0, prev[q + 3..].trim().to_string());
+                        if !prev[..q].trim().is_empty() {
+                            break;
+                        }
                     }
                 }
                 out.push(if text.is_empty() { None } else { Some(text.join("\n")) });
@@ -728,7 +733,14 @@ pub fn eval_case(src: &str, opt: &Opt, origin: &str, tally: &mut Tally, findings
     let (at_in, at_out) = (attachments(src), attachments(&out1));
     if at_in.iter().any(|x| x.is_some()) && at_in != at_out {
         tally.hit("comments");
-        report("C13", "attached-text-detached", format!("{:?} -> {:?}", at_in, at_out), json!({"output": clip(&out1)}));
+        let merged = at_in.len() == at_out.len()
+            && at_in.iter().zip(at_out.iter()).all(|(a, b)| match (a, b) {
+                | (Some(a), Some(b)) => a == b || b.ends_with(&format!("\n{a}")),
+                | (None, _) => true,
+                | _ => false,
+            });
+        let cause = if merged { "another-text-block-carried-to-the-annotation-merges-with-its-attached-text" } else { "other" };
+        report("C13", "attached-text-detached", format!("cause={cause}; {:?} -> {:?}", at_in, at_out), json!({"output": clip(&out1)}));
     }
     let (ta, tb) = (norm_tokens(&a.tokens, true), norm_tokens(&b.tokens, true));
     if ta != tb && !explained_by_puns(&ta, &tb) {
